@@ -104,6 +104,12 @@ def gen(tier, rng):
 def run(tier, rng, C):
     cases = gen(tier, rng)
     v, stats = C.differential("C20", cases, nontrivial=lambda l, o: True)
+    # compile-time side of "secrets can key hash collections": the key type lends itself as nothing but itself (a Borrow<str>
+    # would let a lookup hash the plain text, which never matches the digest-based Hash of the stored key)
+    from gen import probes
+    pv, pstats = probes.run_probes("C20", [p for p in probes.PROBES if p["prop"] == "C20"], C)
+    v += pv
+    stats.update(pstats)
     stats["rule"] = ("10 secret types x pairs from ~90 strings (equal, one-byte difference at every offset of a 39-byte string, prefixes, length differences, empty, NUL, "
                      "NFC/NFD and compatibility look-alikes, SHA-256 block-boundary lengths) + one-character affix sweep (every ASCII character, CR LF, NBSP, LS, BOM at either end of five bases, both argument orders) + random short pairs; observation = (==, symmetric ==, hash equality when == with the second hash taken on a freshly spawned thread as well, content equality); "
                      "the model computes == as equality of Gallina SHA-256 digests; every case non-trivial")
